@@ -74,8 +74,10 @@ theorem canon_wire (fin : Fin) :
 theorem rel_close {w g} (h : RelRun w g) (fin : Fin) :
     Obs (Wrap.close Cfg.current w fin) (GrpcRef.writeStatus g fin) := by
   obtain ⟨h1, h2, h3, h4, h5, h6⟩ := h
-  unfold Obs Wrap.close Wrap.sendHeaderIfNeeded Wrap.sendHeader GrpcRef.writeStatus
-  simp only [Cfg.current, if_true]
+  have hcl : Wrap.close Cfg.current w fin = { Wrap.sendHeaderIfNeeded w with closed := some fin } := rfl
+  rw [hcl]
+  unfold Obs Wrap.sendHeaderIfNeeded Wrap.sendHeader GrpcRef.writeStatus
+  simp only [h3, Option.isSome_none, Bool.false_eq_true, if_false]
   by_cases hc : w.headerC
   · simp [hc] at h6
     simp [hc, h6, Wrap.header, GrpcRef.header, Wrap.trailer, GrpcRef.trailer, Wrap.terminal,
@@ -125,7 +127,7 @@ theorem rel_xfer {w g} (h : RelRun w g) (d : Dir) (m : Nat) (reuse : Bool) :
   rw [f2, f1]; exact h6
 
 /-- The joint runs over the wrapper's state and over the reference's frames agree whenever the two
-states are related: by induction over the run (36 cases of `go`). -/
+states are related: by induction over the run (38 cases of `go`). -/
 theorem go_eq (fin : Fin) (reuse : Bool) (w : Wrap.State) (cc : Bool) (srv : Srv) (cs : List COp) :
     ∀ g, Rel srv w g → Hp srv w →
       go (Wrap.impl Cfg.current) fin reuse w cc srv cs = go GrpcRef.impl fin reuse g cc srv cs := by
@@ -135,13 +137,13 @@ theorem go_eq (fin : Fin) (reuse : Bool) (w : Wrap.State) (cc : Bool) (srv : Srv
     have := rel_setHeader h md
     simp only [go]
     rw [ih _ this.1 (Wrap.heapInv_setHeader hq _ md)]
-    simp only [Wrap.impl, GrpcRef.impl, this.2]
+    simp only [Wrap.impl, GrpcRef.impl, Wrap.sendHeaderC_current, this.2]
   case case2 s cc md ss cs ih =>
     intro g h hq
     have := rel_sendHeader h md
     simp only [go]
     rw [ih _ this.1 (Wrap.heapInv_sendHeader hq md)]
-    simp only [Wrap.impl, GrpcRef.impl, this.2]
+    simp only [Wrap.impl, GrpcRef.impl, Wrap.sendHeaderC_current, this.2]
   case case3 s cc md ss cs ih =>
     intro g h hq
     simp only [go]
@@ -157,19 +159,19 @@ theorem go_eq (fin : Fin) (reuse : Bool) (w : Wrap.State) (cc : Bool) (srv : Srv
     have hpay := Wrap.xfer_payload hqs Cfg.current rfl .s2c m reuse
     simp only [go]
     rw [ih _ (rel_xfer hps .s2c m reuse) (Wrap.xfer_heapInv hqs Cfg.current rfl .s2c m reuse)]
-    simp only [Wrap.impl, GrpcRef.impl, hpay]
+    simp only [Wrap.impl, GrpcRef.impl, Wrap.sendHeaderIfNeededC_current, hpay]
   case case6 s cc m ss cs md hmd ih =>
     intro g h hq
     have hp := rel_preSend h
     have hh := rel_header hp
-    simp only [Wrap.impl] at hmd
+    simp only [Wrap.impl, Wrap.sendHeaderIfNeededC_current] at hmd
     simp only [go, GrpcRef.impl, ← hh, hmd]
     exact congrArg _ (ih _ hp (Wrap.heapInv_preSend hq))
   case case7 s cc m ss cs hmd =>
     intro g h hq
     have hp := rel_preSend h
     have hh := rel_header hp
-    simp only [Wrap.impl] at hmd
+    simp only [Wrap.impl, Wrap.sendHeaderIfNeededC_current] at hmd
     simp only [go, GrpcRef.impl, ← hh, hmd]
   case case8 s m ss cs ih =>
     intro g h hq
@@ -190,7 +192,7 @@ theorem go_eq (fin : Fin) (reuse : Bool) (w : Wrap.State) (cc : Bool) (srv : Srv
     have hpay := Wrap.xfer_payload hq Cfg.current rfl .c2s m reuse
     simp only [go]
     rw [ih _ (rel_xfer h .c2s m reuse) (Wrap.xfer_heapInv hq Cfg.current rfl .c2s m reuse)]
-    simp only [Wrap.impl, GrpcRef.impl, hpay]
+    simp only [Wrap.impl, GrpcRef.impl, Wrap.sendHeaderIfNeededC_current, hpay]
   case case13 s ss cs ih =>
     intro g h hq
     have := ih _ h hq
@@ -199,13 +201,13 @@ theorem go_eq (fin : Fin) (reuse : Bool) (w : Wrap.State) (cc : Bool) (srv : Srv
   case case14 s ss cs md hmd ih =>
     intro g h hq
     have hh := rel_header h
-    simp only [Wrap.impl] at hmd
+    simp only [Wrap.impl, Wrap.sendHeaderIfNeededC_current] at hmd
     simp only [go, GrpcRef.impl, ← hh, hmd]
     exact congrArg _ (ih _ h hq)
   case case15 s ss cs hmd =>
     intro g h hq
     have hh := rel_header h
-    simp only [Wrap.impl] at hmd
+    simp only [Wrap.impl, Wrap.sendHeaderIfNeededC_current] at hmd
     simp only [go, GrpcRef.impl, ← hh, hmd]
   case case16 s tl a cs ih =>
     intro g h hq
@@ -223,13 +225,13 @@ theorem go_eq (fin : Fin) (reuse : Bool) (w : Wrap.State) (cc : Bool) (srv : Srv
   case case19 s cc ss cs md hmd ih =>
     intro g h hq
     have hh := rel_header h
-    simp only [Wrap.impl] at hmd
+    simp only [Wrap.impl, Wrap.sendHeaderIfNeededC_current] at hmd
     simp only [go, GrpcRef.impl, ← hh, hmd]
     exact congrArg _ (ih _ h hq)
   case case20 s cc ss cs hmd =>
     intro g h hq
     have hh := rel_header h
-    simp only [Wrap.impl] at hmd
+    simp only [Wrap.impl, Wrap.sendHeaderIfNeededC_current] at hmd
     simp only [go, GrpcRef.impl, ← hh, hmd]
   case case21 s ss cs ih =>
     intro g h hq
@@ -262,13 +264,13 @@ theorem go_eq (fin : Fin) (reuse : Bool) (w : Wrap.State) (cc : Bool) (srv : Srv
   case case28 s cc cs md hmd ih =>
     intro g h hq
     have hh : Wrap.header s = GrpcRef.header g := h.1
-    simp only [Wrap.impl] at hmd
+    simp only [Wrap.impl, Wrap.sendHeaderIfNeededC_current] at hmd
     simp only [go, GrpcRef.impl, ← hh, hmd]
     exact congrArg _ (ih _ h hq)
   case case29 s cc cs hmd =>
     intro g h hq
     have hh : Wrap.header s = GrpcRef.header g := h.1
-    simp only [Wrap.impl] at hmd
+    simp only [Wrap.impl, Wrap.sendHeaderIfNeededC_current] at hmd
     simp only [go, GrpcRef.impl, ← hh, hmd]
   case case30 s cc cs ih =>
     intro g h hq
@@ -299,10 +301,22 @@ theorem go_eq (fin : Fin) (reuse : Bool) (w : Wrap.State) (cc : Bool) (srv : Srv
     have ht : Wrap.terminal s = GrpcRef.terminal g := h.2
     simp only [Wrap.impl] at he
     simp only [go, GrpcRef.impl, ← ht, he]
-  case case36 x cc hd tl h1 =>
+  case case36 s cc cs md hmd ih =>
+    intro g h hq
+    have hh : Wrap.header s = GrpcRef.header g := h.1
+    simp only [Wrap.impl, Wrap.sendHeaderIfNeededC_current] at hmd
+    simp only [go, GrpcRef.impl, ← hh, hmd]
+    exact congrArg _ (ih _ h hq)
+  case case37 s cc cs hmd =>
+    intro g h hq
+    have hh : Wrap.header s = GrpcRef.header g := h.1
+    simp only [Wrap.impl, Wrap.sendHeaderIfNeededC_current] at hmd
+    simp only [go, GrpcRef.impl, ← hh, hmd]
+  case case38 x cc hd tl h1 h2 =>
     intro g h hq
     cases hd
     case recv => exact absurd rfl h1
+    case header => exact absurd rfl h2
     all_goals simp only [go]
 
 end ScVerif.C13
